@@ -8,12 +8,12 @@ package props
 import (
 	"encoding/json"
 	"fmt"
-	r "reflect"
 	"os"
+	r "reflect"
 	"regexp"
 	"sort"
-	"time"
 	"strings"
+	"time"
 
 	"github.com/cosmos72/gomacro/classic"
 
